@@ -242,8 +242,67 @@ fn nonce_case(cfg: Cfg, seeded: bool, wit_variant: usize) -> Box<dyn Case> {
     })
 }
 
+/// Environment deviations on the transcript RNG: a window of 1 or 2 consecutive outputs is the sample that reduces to zero.
+/// A nonce is then the next nonzero output (rejection sampling); it is never zero, never a repeat and never a value the
+/// generator did not hand out.
+fn zero_draw_case(cfg: Cfg, seeded: bool) -> Box<dyn Case> {
+    case(format!("{}/seeded={}/zero-rng-outputs", cfg.key(), seeded), move |_v| {
+        fg::clear_intern();
+        let mut res = CaseResult::new("explored");
+        let mut wit = Wit::default_for(&cfg);
+        if seeded {
+            wit.seed = Some(seed_scalar(31));
+        }
+        merlin::observe::zero_rng_fills(None);
+        let base = match observed_prove(&cfg, &wit, &CTX_A, &mut HRng::chacha(9), &mut res, "zero-draws/base") {
+            Some(b) => b,
+            None => {
+                res.outcome = "prover-failed(skipped)".into();
+                return res;
+            },
+        };
+        let draws = base.rng_scalars.len();
+        for window in [1usize, 2] {
+            for at in 0..draws {
+                res.transitions += 1;
+                merlin::observe::zero_rng_fills(Some((at, window)));
+                let sub = format!("zero-draws/at={},len={}", at, window);
+                let run = observed_prove(&cfg, &wit, &CTX_A, &mut HRng::chacha(9), &mut res, &sub);
+                merlin::observe::zero_rng_fills(None);
+                let run = match run {
+                    Some(r) => r,
+                    None => {
+                        res.violate(format!("{}/prove", sub), "the prover fails when the generator returns a zero sample");
+                        continue;
+                    },
+                };
+                *res.outcome_counter("zero-output-deviations") += 1;
+                if run.rng_scalars.iter().filter(|x| **x == Scalar::ZERO).count() < window {
+                    res.machinery_error(format!("{}: the deviation did not take effect", sub));
+                }
+                check_within(&run, &sub, &mut res);
+                // every RNG-derived nonce is an output of the generator
+                let handed: std::collections::BTreeSet<[u8; 32]> = run.rng_scalars.iter().map(|x| x.to_bytes()).collect();
+                for (name, v) in run.nonces.all() {
+                    let rng_derived = !seeded || name == "r" || name == "s";
+                    if rng_derived {
+                        res.validated += 1;
+                        if !handed.contains(&v.to_bytes()) {
+                            res.violate(
+                                format!("{}/source/{}", sub, name),
+                                format!("nonce {} is not a value the generator handed out (after {} zero sample(s) at output {})", name, window, at),
+                            );
+                        }
+                    }
+                }
+            }
+        }
+        res
+    })
+}
+
 pub fn run(rep: &mut Report) {
-    rep.rule = "configuration lattice x seed {absent, present (m=1)} x two witnesses x three RNG streams (every ordered pair), two calls of the OS-randomness entry point, and two stuck generators (within-proof distinctness only): nonces \
+    rep.rule = "configuration lattice x seed {absent, present (m=1)} x two witnesses x three RNG streams (every ordered pair), two calls of the OS-randomness entry point, two stuck generators (within-proof distinctness only), and every window of 1 or 2 consecutive transcript-RNG outputs replaced by the zero sample (4 configurations): nonces \
                 (alpha_k, dL_jk, dR_jk, d_k, eta_k, r, s) read back from the coordinates of the library's proof over F; oracle: nonzero, \
                 pairwise distinct within a proof; unseeded: no nonce of one run equals ANY nonce of another run; seeded: alpha, dL, dR, \
                 d, eta equal the documented keyed-Blake2b function, r and s still differ between runs; the read-back is validated by the \
@@ -259,5 +318,12 @@ pub fn run(rep: &mut Report) {
             }
         }
     }
+    for cfg in [Cfg::new(2, 1, 1, 1), Cfg::new(2, 1, 1, 2), Cfg::new(4, 2, 2, 3), Cfg::new(8, 1, 2, 6)] {
+        cases.push(zero_draw_case(cfg, false));
+        if cfg.m == 1 {
+            cases.push(zero_draw_case(cfg, true));
+        }
+    }
     rep.explore("C13", cases);
+    rep.expect_sub_outcome("zero-output-deviations");
 }
